@@ -119,6 +119,9 @@ func (e *Exec) execInstr(f *Frame, b *ssa.BasicBlock, ins ssa.Instruction, st *S
 		if len(a.Path) == 0 && a.Kind == addrHeap {
 			e.safety("nilptr", Not(Eq(a.Ref, "0")), reach, fmt.Sprintf("nil pointer dereference: field %s of %s", fieldName(x), x.X.Name()))
 		}
+		if a.Null != "" {
+			e.safety("nilptr", Not(a.Null), reach, fmt.Sprintf("nil pointer dereference: field %s of %s", fieldName(x), x.X.Name()))
+		}
 		na := &Addr{Kind: a.Kind, Root: a.Root, Ref: a.Ref, Idx: a.Idx, Path: append(append([]int{}, a.Path...), x.Field)}
 		f.vals[x] = Val{T: x.Type(), Addr: na, Term: a.Ref}
 	case *ssa.Field:
@@ -165,6 +168,9 @@ func (e *Exec) execInstr(f *Frame, b *ssa.BasicBlock, ins ssa.Instruction, st *S
 		a := e.addrOf(p)
 		if len(a.Path) == 0 && a.Kind == addrHeap {
 			e.safety("nilptr", Not(Eq(a.Ref, "0")), reach, "nil pointer dereference in store")
+		}
+		if a.Null != "" {
+			e.safety("nilptr", Not(a.Null), reach, "nil pointer dereference in store")
 		}
 		v := e.val(f, x.Val)
 		e.frameWrite(f, st, reach, a, "store")
@@ -384,6 +390,9 @@ func (e *Exec) execUnOp(f *Frame, x *ssa.UnOp, st *State, reach Term) {
 		if len(a.Path) == 0 && a.Kind == addrHeap {
 			e.safety("nilptr", Not(Eq(a.Ref, "0")), reach, "nil pointer dereference in load of "+x.X.Name())
 		}
+		if a.Null != "" {
+			e.safety("nilptr", Not(a.Null), reach, "nil pointer dereference in load of "+x.X.Name())
+		}
 		lv := e.load(st, a)
 		out := Val{T: x.Type(), Term: e.define(name, e.reg.sortOf(x.Type()), lv.Term)}
 		// binders of slice range loops: index and element
@@ -440,6 +449,21 @@ func (e *Exec) binop(f *Frame, x *ssa.BinOp, reach Term) Val {
 	b := e.val(f, x.Y)
 	name := f.prefix + x.Name()
 	so := e.reg.sortOf(x.X.Type())
+	if x.Op == token.EQL || x.Op == token.NEQ {
+		// comparison of a nullable interior pointer with nil
+		var nt Term
+		if a.Addr != nil && a.Addr.Null != "" && b.Addr == nil && b.Term == "0" {
+			nt = a.Addr.Null
+		} else if b.Addr != nil && b.Addr.Null != "" && a.Addr == nil && a.Term == "0" {
+			nt = b.Addr.Null
+		}
+		if nt != "" {
+			if x.Op == token.NEQ {
+				nt = Not(nt)
+			}
+			return Val{T: x.Type(), Term: e.define(name, "Bool", nt)}
+		}
+	}
 	at, bt := e.asTerm(a), e.asTerm(b)
 	var t Term
 	switch x.Op {
